@@ -30,6 +30,7 @@ def cases(ctx):
     out += dc.random_cases(rng, n // 4, 7, (-3, -1, 0, 2), inners=("sq", "eu"), pens=(0, 1), mlds=(0 + 1, 2, -1),
                            psi_prob=0.0)
     out += ndim_cases(rng, n // 3, 6, RECT2, ("sq", "eu"), pens=(0, 1), psi_prob=0.0)
+    out += ndim_cases(rng, n // 6, 6, RECT2, ("sq", "eu"), pens=(0, 1), mlds=(1, 2, 3, -1), psi_prob=0.0)
     out += ndim_cases(rng, n // 3, 5, RECT3, ("sq", "eu"), pens=(0, 1), psi_prob=0.0)
     neg3 = [(-3, -4, 0), (0, 0, 0), (-3, -4, -12), (0, 0, -12)]
     out += ndim_cases(rng, n // 4, 5, neg3, ("sq", "eu"), pens=(0,), psi_prob=0.0)
